@@ -117,23 +117,43 @@ _cert_cache = {}
 _cert_key = None
 
 
-def make_cert(cns=("alice",), eku="client"):
-    """Real DER certificate. cns: tuple of common names; eku in None|'server'|'client'|'both'."""
+def make_cert(cns=("alice",), eku="client", layout="separate", issuer_cn=None):
+    """Real DER certificate. cns: tuple of common names; eku in None|'server'|'client'|'both'.
+    layout: 'separate' = every CN in an RDN of its own; 'multi' = all CNs in ONE multi-valued
+    RDN (CN=a+CN=b); 'multi-ou' = one multi-valued RDN holding the CNs and an OU; 'cn-first' =
+    CNs before the organisation RDN.  issuer_cn: the issuer gets a name of its own with that
+    common name (otherwise self-issued)."""
     global _cert_key
     from cryptography import x509
     from cryptography.hazmat.primitives import hashes, serialization
     from cryptography.hazmat.primitives.asymmetric import ec
     from cryptography.x509.oid import NameOID, ExtendedKeyUsageOID
-    key = (tuple(cns), eku)
+    key = (tuple(cns), eku, layout, issuer_cn)
     if key in _cert_cache:
         return _cert_cache[key]
     if _cert_key is None:
         _cert_key = ec.generate_private_key(ec.SECP256R1())
-    attrs = [x509.NameAttribute(NameOID.ORGANIZATION_NAME, u"verif")]
-    for cn in cns:
-        attrs.append(x509.NameAttribute(NameOID.COMMON_NAME, cn))
-    name = x509.Name(attrs)
-    b = (x509.CertificateBuilder().subject_name(name).issuer_name(name)
+    org = x509.NameAttribute(NameOID.ORGANIZATION_NAME, u"verif")
+    cnattrs = [x509.NameAttribute(NameOID.COMMON_NAME, cn) for cn in cns]
+    if layout == "separate":
+        name = x509.Name([org] + cnattrs)
+    elif layout == "cn-first":
+        name = x509.Name(cnattrs + [org])
+    elif layout in ("multi", "multi-ou"):
+        inner = list(cnattrs)
+        if layout == "multi-ou":
+            inner.append(x509.NameAttribute(NameOID.ORGANIZATIONAL_UNIT_NAME, u"unit"))
+        rdns = [x509.RelativeDistinguishedName([org])]
+        if inner:
+            rdns.append(x509.RelativeDistinguishedName(inner))
+        name = x509.Name(rdns)
+    else:
+        raise ValueError("unknown certificate layout %r" % (layout,))
+    issuer = name
+    if issuer_cn is not None:
+        issuer = x509.Name([x509.NameAttribute(NameOID.ORGANIZATION_NAME, u"verif-ca"),
+                            x509.NameAttribute(NameOID.COMMON_NAME, issuer_cn)])
+    b = (x509.CertificateBuilder().subject_name(name).issuer_name(issuer)
          .public_key(_cert_key.public_key()).serial_number(1000 + len(_cert_cache))
          .not_valid_before(datetime.datetime(2020, 1, 1))
          .not_valid_after(datetime.datetime(2040, 1, 1)))
@@ -284,11 +304,14 @@ class Server(object):
                 "internal": internal_errors(cap), "version": (pv.major, pv.minor), "request": req}
 
     def session(self, data, cn="alice", chunks=None, cert="default", tls_client_auth=True,
-                auth_settings=None, max_loops=50):
-        """Run a real KmipSession message loop over `data`; returns (connection, loop_exceptions)."""
+                auth_settings=None, max_loops=50, conn_hook=None):
+        """Run a real KmipSession message loop over `data`; returns (connection, loop_exceptions).
+        conn_hook(conn) is called with the scripted connection before the loop starts."""
         if cert == "default":
             cert = make_cert((cn,), "client")
         conn = FakeConnection(data, chunks, cert)
+        if conn_hook is not None:
+            conn_hook(conn)
         sess = session_mod.KmipSession(self.engine, conn, ("127.0.0.1", 5696), name="verif",
                                        enable_tls_client_auth=tls_client_auth,
                                        auth_settings=auth_settings)
